@@ -138,6 +138,32 @@ pub fn build_mmap_route(l: &Layout, route: usize) -> Result<GuestMemoryMmap<()>,
         }
         return Ok(m);
     }
+    if route >= 3 {
+        // every hole of the layout filled by one region, so that the map starts out without any
+        // gap, and the fillers removed again one by one (from the middle of the map)
+        let mut fillers: Vec<(u64, u64)> = Vec::new();
+        for w in l.regs.windows(2) {
+            let end = w[0].0 + w[0].1;
+            if w[1].0 > end {
+                fillers.push((end, w[1].0 - end));
+            }
+        }
+        if !fillers.is_empty() && fillers.iter().all(|f| f.1 <= 1 << 16) {
+            let mut all: Vec<(u64, u64)> = l.regs.clone();
+            all.extend(fillers.iter().cloned());
+            all.sort();
+            let mut regions = Vec::new();
+            for (s, n) in &all {
+                regions.push(mk(*s, *n)?);
+            }
+            let mut m = GuestMemoryMmap::from_regions(regions).map_err(|e| format!("{:?}", e))?;
+            for (s, n) in fillers {
+                touch_queries(&m);
+                m = m.remove_region(GuestAddress(s), n).map_err(|e| format!("{:?}", e))?.0;
+            }
+            return Ok(m);
+        }
+    }
     let first = l.regs[0].0;
     let (ls, ln) = *l.regs.last().unwrap();
     let mut extra: Vec<u64> = Vec::new();
@@ -191,7 +217,7 @@ pub fn build_mmap_route_checked(ctx: &crate::report::Ctx, prop: &str, l: &Layout
             if route != 0 && build_mmap(l).is_ok() {
                 ctx.fail(
                     &format!("{}/map-built-by-updates/valid-update-refused", prop),
-                    &format!("layout {} built through construction route {} (1 = insertions from the back, 2+ = extra regions removed again): {}", l.describe(), route, e),
+                    &format!("layout {} built through construction route {} (1 = insertions from the back, 2 = extra regions outside the layout removed again, 3 = every hole filled by a region that is removed again): {}", l.describe(), route, e),
                     serde_json::json!({"layout": l.regs, "route": route}),
                 );
             } else {
